@@ -101,16 +101,21 @@ func tokenizeStream(src io.Reader, normalize bool, dict *dictionary, updateDict 
 		// Fill up the buffer with bytes to extract runes from
 		// idx is offset to hold any bytes left over from previous reads
 		n, err := io.ReadFull(src, rbuf[idx:])
+		// valid is the number of bytes in rbuf that hold input.
+		valid := bufSize
 		if isEOF(err) {
 			// There are no more bytes to read, so we must now consume all bytes in the
 			// buffer.
 			tgt = idx + n
+			// Bytes of an earlier read may linger behind the end of the input; they
+			// must not complete a truncated rune.
+			valid = tgt
 		} else if err != nil {
 			return nil, err
 		}
 
 		for idx = 0; idx < tgt; {
-			r, n := utf8.DecodeRune(rbuf[idx:])
+			r, n := utf8.DecodeRune(rbuf[idx:valid])
 			idx += n
 
 			if r == '\n' {
